@@ -93,7 +93,11 @@ def inside_corner_points(drv, rng, n):
         cl = cen[0]
         while cl - q[0] > 180: cl -= 360
         while cl - q[0] < -180: cl += 360
-        f = rng.choice([1e-2, 1e-3, 1e-4, 0.0, 0.0])      # 0.0: the published corner / edge point itself (given back to the library as is)
+        f = rng.choice([1e-2, 1e-3, 1e-4, 0.0, 0.0])      # 0.0: a published corner itself, given back to the library as is
+        if f == 0.0:
+            # only true corners: a point on the lon/lat chord between two corners is not on the (curved) edge but ~1e-6 widths off it, which is
+            # inside the oracle's own discretisation error (false alarm seen once in the thorough tier: 1.38e-6 widths at resolution 9)
+            q = (a[0], a[1])
         out.append(((q[0] + f * (cl - q[0]), q[1] + f * (cen[1] - q[1])), c))
     return out
 
